@@ -67,7 +67,7 @@ class Operator(Token):
 
     def process(self, match, context=None):
         if self._re_process:
-            s = match.groups()[0].replace(self._replace, '')
+            s = ''.join(match.groups()[0].split())  # Drop any white space.
             match = self._re_process.match(s)
         if match:
             return super(Operator, self).process(match, context=context)
@@ -114,6 +114,9 @@ class Operator(Token):
 
 class Intersect(Operator):
     _re = regex.compile(r'^(?P<name>\s)\s*')
+
+    def process(self, match, context=None):
+        return {'name': ' '}  # Whatever the white space character is.
 
 
 class Separator(Operator):
